@@ -157,6 +157,7 @@ def dgen(**kw):
 
 _G_SINGLE2 = dgen(Balancers='{"priority", "round-robin"}', Framings='{"cl", "chunked"}')
 _G_BURST = dgen(GKinds='{"ok", "reset_after"}', Balancers='{"round-robin"}', Framings='{"chunked"}', Pattern=1, BurstN=8)
+_G_BURST3 = dgen(GKinds='{"ok", "reset_after"}', Balancers='{"round-robin"}', Framings='{"chunked"}', Pattern=5, BurstN=8)
 _G_SINGLE3 = dgen(NEPs="{2, 3}", Balancers='{"priority", "round-robin", "least-connections"}',
                   Framings='{"cl", "chunked"}', Routes='{"proxy", "provider"}')
 _G_FOUR = dgen(NEPs="{4}", GKinds='{"ok", "reset_pre", "refuse"}', Balancers='{"round-robin"}')
@@ -197,13 +198,13 @@ _DISPATCH_RULE = ("TLC enumerates fault assignments (every endpoint x fault kind
 PROPS["C02"] = {
     "rule": _DISPATCH_RULE, "exhaustive": True,
     "assumptions": ["backends stamp every body token with (endpoint, attempt); attribution of delivered bytes is by token"],
-    "parts": [dpart([_G_SINGLE2, _G_BURST], [_G_SINGLE3, _G_BURST, _G_TWOSTEP], 6000)],
+    "parts": [dpart([_G_SINGLE2, _G_BURST], [_G_SINGLE3, _G_BURST, _G_BURST3, _G_TWOSTEP], 6000)],
 }
 
 PROPS["C04"] = {
     "rule": _DISPATCH_RULE, "exhaustive": False,
-    "assumptions": ["'timed out' dial failures are not produced in the sandbox (no black-hole address); "
-                    "refused and reset connections are"],
+    "assumptions": ["'timed out' dial failures are produced by black-holing a backend's address (raw listening socket "
+                    "with a full accept queue), connection timeout 600 ms in those stacks"],
     "parts": [dpart([_G_SINGLE2, _G_FOUR, _G_BREAKER, _G_TWOSTEP, _G_DIALTO], [_G_SINGLE3, _G_FOUR, _G_BREAKER, _G_TWOSTEP, _G_DIALTO], 8000)],
 }
 PROPS["C04"]["parts"][0]["quick"]["sample"] = 1200
